@@ -863,8 +863,9 @@ int vorbis_synthesis_blockin(vorbis_dsp_state *v,vorbis_block *vb){
 
       v->granulepos=vb->granulepos;
 
-      /* is this a short page? */
-      if(b->sample_count>v->granulepos){
+      /* is this a short page?  (nothing to trim when the block was only
+         tracked: no PCM was produced and pcm_returned may still be -1) */
+      if(vb->pcm && b->sample_count>v->granulepos){
         /* corner case; if this is both the first and last audio page,
            then spec says the end is cut, not beginning */
        long extra=b->sample_count-vb->granulepos;
